@@ -32,7 +32,8 @@ class Contract:
     def __init__(self, target, prop, cases=None, inputs=None, pre=None, returns=None, ensures=None,
                  raises=None, yields_count=None, yields_item=None, invariants=None, result=None,
                  modular=True, allow_exc=(), notes=(), frame=None, loop_havoc=None, expect=None,
-                 may_raise=None, events=None, abstract_hook=None, native=None, assumed=False, on_raise=None, best_effort=False, applicable=None, record_call=False):
+                 may_raise=None, events=None, abstract_hook=None, native=None, assumed=False, on_raise=None, best_effort=False, applicable=None, record_call=False,
+                 zero_divisor_outside=None):
         self.target = target
         self.prop = prop
         self.cases = cases or ["-"]
@@ -59,6 +60,10 @@ class Contract:
         self.record_call = record_call        # modular uses are recorded in the ghost trace as Event(None, 'call:<name>', args)
         self.applicable = applicable          # structural guard (python bool) for modular use; if False the callee is inlined
         self.best_effort = best_effort        # undecided jobs are listed as not covered instead of making the run undecided
+        # text naming the inputs for which an array element of the result divides by zero (numpy: inf / nan) when such inputs are
+        # OUTSIDE what the contract speaks about (e.g. weights that sum to zero); those paths are cut and the text is reported as
+        # an assumption.  Default None: such a path is an obligation that only infeasibility discharges.
+        self.zero_divisor_outside = zero_divisor_outside
         self.assumed = assumed                # contract NOT verified (external / trusted): only usable at call sites, listed as assumption
         REGISTRY[target] = self
 
